@@ -492,6 +492,121 @@ static void witnessParallelSegmentBend() {
     witnessSolve(sc, vpsc::XDIM, des, wts);
 }
 
+
+// ------------------------------------------------------------------ resize-focused strict class
+//
+// scene-resize-corners: a node R with one edge routed tightly round one or two of its corners, small
+// bystander nodes next to the segments incident to those bends (the region the segments sweep when a
+// side of R moves), then applyResizes() requests that move each of R's four sides separately or in
+// combination. The canonical picture (edge round R.BR [and R.TR]) is mapped through the 8 symmetries
+// of the square, so every corner and both axes are hit.
+struct Sym {
+    bool tr, mx, my;
+    void pt(double &x, double &y) const { if (tr) std::swap(x, y); if (mx) x = -x; if (my) y = -y; }
+    // canonical rectangle -> actual (minX,maxX,minY,maxY)
+    void rect(double x0, double x1, double y0, double y1, double out[4]) const {
+        double ax = x0, ay = y0, bx = x1, by = y1;
+        pt(ax, ay); pt(bx, by);
+        out[0] = std::min(ax, bx); out[1] = std::max(ax, bx); out[2] = std::min(ay, by); out[3] = std::max(ay, by);
+    }
+    int corner(int ri) const {
+        bool xmax = (ri == EP::TR || ri == EP::BR), ymax = (ri == EP::TR || ri == EP::TL);
+        if (tr) std::swap(xmax, ymax);
+        if (mx) xmax = !xmax;
+        if (my) ymax = !ymax;
+        return xmax ? (ymax ? EP::TR : EP::BR) : (ymax ? EP::TL : EP::BL);
+    }
+};
+
+static void popNode(Scene &sc) {
+    delete sc.nodes.back(); sc.nodes.pop_back();
+    delete sc.rs.back(); sc.rs.pop_back();
+}
+
+static void resizeExact(Scene &sc, unsigned id, double x0, double x1, double y0, double y1) {
+    unsigned n = sc.nodes.size();
+    vpsc::Rectangle target(x0, x1, y0, y1);
+    printf("Z %u %s %s %s %s\n", id, hx(x0).c_str(), hx(x1).c_str(), hx(y0).c_str(), hx(y1).c_str());
+    fflush(stdout);
+    topology::ResizeMap resizes;
+    resizes.insert(std::make_pair(id, topology::ResizeInfo(sc.nodes[id], &target)));
+    g_dim = 2;
+    vpsc::Variables xvs, yvs;
+    vpsc::Constraints xcs, ycs;
+    for (unsigned i = 0; i < n; ++i) { xvs.push_back(new vpsc::Variable(i, sc.rs[i]->getCentreX())); yvs.push_back(new vpsc::Variable(i, sc.rs[i]->getCentreY())); }
+    topology::applyResizes(sc.nodes, sc.edges, nullptr, resizes, xvs, xcs, yvs, ycs);
+    printState("resize", 2, sc.nodes, sc.edges);
+    for (size_t i = 0; i < xvs.size(); ++i) delete xvs[i];
+    for (size_t i = 0; i < yvs.size(); ++i) delete yvs[i];
+    for (size_t i = 0; i < xcs.size(); ++i) delete xcs[i];
+    for (size_t i = 0; i < ycs.size(); ++i) delete ycs[i];
+    for (unsigned i = 0; i < n; ++i) sc.nodes[i]->var = nullptr;
+}
+
+static void sceneResizeCornersCase(vh::Rng &r, bool thorough) {
+    Scene sc;
+    Sym sym = {r.coin(), r.coin(), r.coin()};
+    double q[4];
+    // canonical frame: S lower-left, R in the middle, edge S -> R.BR (-> R.TR) -> T
+    double rw = (double) r.range(12, 30), rh = (double) r.range(30, 70);
+    double Rx0 = 100, Rx1 = 100 + rw, Ry0 = 40, Ry1 = 40 + rh;
+    double sx = (double) r.range(-20, 40), sy = (double) r.range(-20, 20);
+    bool twoBends = r.coin(2, 3);
+    double tx, ty;
+    if (twoBends) { tx = (double) r.range(30, 90); ty = Ry1 + (double) r.range(30, 70); }
+    else {
+        double dx = (double) r.range(12, 60), dy = (double) r.range(40, 120);
+        // the turn at R.BR must be a left turn (round R): slope of BR->T steeper than slope of S->BR
+        if ((Rx1 - sx) * dy - (Ry0 - sy) * dx <= 0) dy = (Ry0 - sy) * dx / (Rx1 - sx) + 20;
+        tx = Rx1 + dx; ty = Ry0 + std::floor(dy);
+    }
+    sym.rect(sx - 10, sx + 10, sy - 10, sy + 10, q); sc.addNode(q[0], q[1], q[2], q[3]);     // 0 = S
+    sym.rect(tx - 10, tx + 10, ty - 10, ty + 10, q); sc.addNode(q[0], q[1], q[2], q[3]);     // 1 = T
+    sym.rect(Rx0, Rx1, Ry0, Ry1, q);               sc.addNode(q[0], q[1], q[2], q[3]);     // 2 = R
+    std::vector<std::pair<unsigned, int> > pts;
+    pts.push_back(std::make_pair(0u, (int) EP::CENTRE));
+    pts.push_back(std::make_pair(2u, sym.corner(EP::BR)));
+    if (twoBends) pts.push_back(std::make_pair(2u, sym.corner(EP::TR)));
+    pts.push_back(std::make_pair(1u, (int) EP::CENTRE));
+    // canonical polyline, for placing bystanders next to its legs
+    std::vector<std::pair<double, double> > poly;
+    poly.push_back(std::make_pair(sx, sy)); poly.push_back(std::make_pair(Rx1, Ry0));
+    if (twoBends) poly.push_back(std::make_pair(Rx1, Ry1));
+    poly.push_back(std::make_pair(tx, ty));
+    int want = (int) r.range(1, thorough ? 6 : 4), tries = 0;
+    while ((int) sc.nodes.size() < 3 + want && tries++ < 200) {
+        size_t leg = (size_t) r.range(0, (long) poly.size() - 2);
+        double t = (double) r.range(10, 90) / 100.0;
+        double ax = poly[leg].first, ay = poly[leg].second, bx = poly[leg + 1].first, by = poly[leg + 1].second;
+        double len = std::sqrt((bx - ax) * (bx - ax) + (by - ay) * (by - ay));
+        double half = (double) r.range(3, 5);
+        double off = (half * 1.5 + (double) r.range(1, 28)) * (r.coin() ? 1 : -1);
+        double cx = std::floor(ax + t * (bx - ax) - off * (by - ay) / len), cy = std::floor(ay + t * (by - ay) + off * (bx - ax) / len);
+        sym.rect(cx - half, cx + half, cy - half, cy + half, q);
+        vpsc::Rectangle cand(q[0], q[1], q[2], q[3]);
+        bool ok = true;
+        for (size_t i = 0; i < sc.rs.size() && ok; ++i) ok = !rectsOverlap(&cand, sc.rs[i], 1.0);
+        if (!ok) continue;
+        sc.addNode(q[0], q[1], q[2], q[3]);
+        if (!pathValid(sc, pts)) popNode(sc);
+    }
+    if (pathValid(sc, pts)) addEdge(sc, pts, 100);
+    printHeader(sc);
+    if (sc.edges.empty()) return;
+    int rounds = (int) r.range(1, 3);
+    for (int round = 0; round < rounds; ++round) {
+        vpsc::Rectangle *R = sc.rs[2];
+        int mask = (int) r.range(1, 15);
+        double d[4];
+        for (int i = 0; i < 4; ++i) d[i] = (mask >> i & 1) ? (double) (r.coin(3, 4) ? r.range(2, 35) : -r.range(1, 8)) : 0;
+        double x0 = R->getMinX() - d[0], x1 = R->getMaxX() + d[1], y0 = R->getMinY() - d[2], y1 = R->getMaxY() + d[3];
+        if (x1 - x0 < 4) { x0 = R->getMinX(); x1 = R->getMaxX(); }
+        if (y1 - y0 < 4) { y0 = R->getMinY(); y1 = R->getMaxY(); }
+        resizeExact(sc, 2, x0, x1, y0, y1);
+    }
+    if (r.coin(1, 3)) { int budget = 40; solvePhase(r, sc, r.coin() ? vpsc::XDIM : vpsc::YDIM, 1, 40, budget); }
+}
+
 // ------------------------------------------------------------------ ConstrainedFDLayout + addon
 
 struct SnapAddon : public topology::ColaTopologyAddon {
@@ -679,6 +794,15 @@ int main(int argc, char **argv) {
         if (m == 0) cls = 0; else if (m <= 2) cls = 1; else if (m <= 5) cls = 2; else if (m <= 7) cls = 3; else cls = 4;
         vh::beginCase(k, tags[cls]);
         runIsolated([&]() { if (cls == 4) sceneFdCase(r, thorough); else sceneSolveCase(r, cls, thorough); });
+        vh::endCase();
+    }
+    // resize-focused strict class (appended so that the indices / seeds of the classes above stay put)
+    long nResize = (thorough ? 300 : 60) * a.scale;
+    for (long c = 0; c < nResize; ++c, ++k) {
+        if (!a.want(k)) continue;
+        vh::Rng r = vh::caseRng(a.seed, k);
+        vh::beginCase(k, "scene-resize-corners");
+        runIsolated([&]() { sceneResizeCornersCase(r, thorough); });
         vh::endCase();
     }
     return 0;
